@@ -2,7 +2,7 @@
 (***************************************************************************)
 (* Validates the difference cases executed on the real updates package     *)
 (* (vh diff-cases) against Diff.tla - property C10.                        *)
-(*  {"ev":"diff","kind","col","a","b","oa","ob","hasModify","modify",      *)
+(*  {"ev":"diff","via","kind","col","a","b","oa","ob","hasModify","modify",*)
 (*   "applied","aAfter","a2After","rewritten","err"}                        *)
 (*  {"ev":"peer","kind","col","a","d","result","changed","err"}             *)
 (* Values are in the integer universe of MC_Diff (sets as arrays, maps as  *)
@@ -24,6 +24,7 @@ Report(prop, what, detail) ==
 Chk(cond, prop, what, detail) == IF cond THEN TRUE ELSE Report(prop, what, detail)
 
 Key(e) == [kind |-> e.kind, col |-> e.col, a |-> e.a, b |-> IF e.ev = "diff" THEN e.b ELSE e.d,
+           via |-> IF e.ev = "diff" THEN e.via ELSE "peer",
            order |-> IF e.ev = "diff" THEN <<e.oa, e.ob>> ELSE <<0, 1>>]
 
 CheckDiff(e) ==
